@@ -27,10 +27,10 @@ ASSUMPTIONS = ["Primitive.atomic_permutations are the pure translations (verifie
 BUDGET = {"quick": 900, "thorough": 3400}
 TOL = 1e-10
 
-LEVELS_Q = [1, 2, 3, 8]
-LEVELS_T = [1, 2, 3, 4, 8, 16, 32]
+LEVELS_Q = [0, 1, 2, 3, 8]
+LEVELS_T = [0, 1, 2, 3, 4, 8, 16, 32]
 KINDS = ["sym", "periodic-random", "sym+drift", "sym+antisym", "random-full"]
-ROUTINES = ["full/C", "full/Py-fallback", "compact/C", "api/full", "api/compact", "spacegroup/api", "transpose-compact", "layout-roundtrip"]
+ROUTINES = ["full/C", "full/Py-fallback", "compact/C", "api/full", "api/compact", "spacegroup/api", "transpose-compact", "layout-roundtrip", "steps/Py"]
 
 S_SET = [np.eye(3, dtype=int).tolist(), [[2, 0, 0], [0, 1, 0], [0, 0, 1]], [[2, 0, 0], [0, 2, 0], [0, 0, 1]], [[2, 0, 0], [0, 2, 0], [0, 0, 2]],
          [[3, 0, 0], [0, 1, 0], [0, 0, 1]], [[1, 0, 0], [0, 3, 0], [0, 0, 2]], [[3, 0, 0], [0, 3, 0], [0, 0, 1]],
@@ -68,6 +68,8 @@ def plan(tier, seed):
             if kind == "random-full" and rout in ("compact/C", "api/compact", "transpose-compact", "layout-roundtrip"):
                 continue
             for level in lv:
+                if level == 0 and rout in ("full/Py-fallback", "api/full", "api/compact"):
+                    continue
                 g.append(dict(pre, kind=kind, routine=rout, level=level))
         groups.append(g)
     groups.sort(key=lambda g: -abs(SM.det3(g[0]["S"])) * len(X.by_name()[g[0]["xtal"]]["symbols"]))
@@ -81,6 +83,15 @@ def plan(tier, seed):
                 for level in ([1, 2] if rout == "compact/C" else [0]):
                     g.append({"xtal": name, "variant": "as-is", "S": S, "pm": "none", "kind": kind, "routine": rout, "level": level, "reorder": True})
             groups.append(g)
+    # coordinates good to ~1e-4 Angstrom with symprec=1e-3: the operations are found with the caller's tolerance, so every
+    # routine that maps atoms by them has to use the same tolerance
+    for name in (["NaCl-prim-2", "hcp-2", "wurtzite-4", "tri-P1-3"] if tier == "quick" else [c["name"] for c in X.all_crystals()]):
+        for S in S_SET[:4] if tier == "quick" else S_SET:
+            if abs(SM.det3(S)) * len(X.by_name()[name]["symbols"]) > 32:
+                continue
+            groups.append([{"xtal": name, "variant": "noisy4", "S": S, "pm": "none", "kind": kind, "routine": rout, "level": 1}
+                           for kind in ("periodic-random", "sym+antisym", "random-full") for rout in ("spacegroup/api", "api/full", "api/compact")
+                           if not (kind == "random-full" and rout == "api/compact")])
     # process history: two different supercells of the same size one after the other in one process (anything cached per
     # process must be keyed by everything it depends on).  All ordered pairs of equal-volume supercells of S_SET.
     nseq = 0
@@ -193,7 +204,7 @@ def run_case(case, seed, c, st):
     tag = "%s/%s%s" % (case["routine"], case["kind"], "/reordered-primitive" if case.get("reorder") else "")
     if "ph" not in st:
         try:
-            st["ph"] = phx.make_phonopy(c, case["S"], case["pm"])
+            st["ph"] = phx.make_phonopy(c, case["S"], case["pm"], **({"symprec": c["symprec"]} if "symprec" in c else {}))
             if case.get("reorder") and len(st["ph"].primitive) > 1:
                 # a primitive cell whose atoms are listed in another order than they appear in the supercell (the public
                 # positions_to_reorder argument of get_primitive): p2s_map is then not ascending
@@ -252,6 +263,8 @@ def run_case(case, seed, c, st):
         return np.array(ph.force_constants)
 
     def invariances(y, what):
+        if level == 0 and rout in ("full/C", "compact/C"):
+            return None  # level 0 only rebuilds the self term: nothing is imposed on the off-diagonal blocks
         e1 = np.abs(y.sum(axis=1)).max() / scale
         e0 = np.abs(y.sum(axis=0)).max() / scale
         ep = np.abs(y - y.transpose(1, 0, 3, 2)).max() / scale
@@ -270,7 +283,7 @@ def run_case(case, seed, c, st):
                 e = np.abs(y - x).max() / scale
                 if e > TOL:
                     return fail("fixed-point", "symmetric input changed by %.3g" % e, e)
-            if rout != "full/Py-fallback":
+            if True:
                 bad = invariances(y, "output")
                 if bad:
                     return bad
@@ -279,12 +292,6 @@ def run_case(case, seed, c, st):
                 e = np.abs(y2 - y).max() / scale
                 if e > TOL:
                     return fail("not-idempotent", "second application changes the result by %.3g" % e, e)
-            else:
-                # the fallback is documented as a different scheme: it must at least agree with the C routine on its
-                # fixed points and produce translationally invariant output (its last step)
-                e1 = max(np.abs(y.sum(axis=1)).max(), np.abs(y.sum(axis=0)).max()) / scale
-                if e1 > TOL * ns:
-                    return fail("output-not-translationally-invariant", "fallback drift %.3g" % e1, e1)
             if rout == "api/full":
                 z = full_C(x)
                 e = np.abs(z - y).max() / scale
@@ -338,6 +345,23 @@ def run_case(case, seed, c, st):
             e = np.abs(np.array(ph.force_constants) - y).max() / scale
             if e > TOL:
                 return fail("not-idempotent", "second application changes the result by %.3g" % e, e)
+            return dict(ok=True, transitions=trans, nontrivial=nontriv, outcome="ok:" + rout)
+        if rout == "steps/Py":
+            # the public pure-Python steps the fallback is made of, against their definitions
+            a = np.array(x, dtype="double", order="C")
+            FC.set_permutation_symmetry(a)
+            trans += 1
+            e = np.abs(a - (x + x.transpose(1, 0, 3, 2)) / 2).max() / scale
+            if e > TOL:
+                return fail("py-permutation-step", "set_permutation_symmetry(fc) differs from (fc + fc^T)/2 by %.3g" % e, e)
+            a = np.array(x, dtype="double", order="C")
+            FC.set_translational_invariance(a)
+            trans += 1
+            w = x - x.mean(axis=0, keepdims=True)
+            w = w - w.mean(axis=1, keepdims=True)
+            e = np.abs(a - w).max() / scale
+            if e > TOL:
+                return fail("py-translation-step", "set_translational_invariance(fc) differs from the mean-subtracted array by %.3g" % e, e)
             return dict(ok=True, transitions=trans, nontrivial=nontriv, outcome="ok:" + rout)
         if rout == "transpose-compact":
             import phonopy._phonopy as phonoc
